@@ -100,6 +100,29 @@ func (e *Exec) havocResults(call *ast.CallExpr, st *State, ctx *Ctx, hint string
 // havocAddressed forgets the value of every local whose address is passed to an external function.
 func (e *Exec) havocAddressed(call *ast.CallExpr, st *State, ctx *Ctx) {
 	for _, a := range call.Args {
+		// a pointer to one of the repository's structs handed to library code (flags.NewParser(opts, ...)): the library may
+		// fill the struct in (by reflection, now or later): every field of that object becomes unknown
+		if t := e.typeOf(a, ctx); t != nil && isPtrToStruct(t) {
+			if named, ok := t.Underlying().(*types.Pointer).Elem().(*types.Named); ok && named.Obj().Pkg() != nil {
+				if _, mine := e.w.Fields[named.Obj().Name()+"."+firstFieldName(named)]; mine && !strings.HasPrefix(named.Obj().Pkg().Path(), "gopkg.in/") {
+					if _, isUnary := a.(*ast.UnaryExpr); !isUnary {
+						ptr := e.eval(a, st, ctx)
+						stt := named.Underlying().(*types.Struct)
+						for i := 0; i < stt.NumFields(); i++ {
+							key := named.Obj().Name() + "." + stt.Field(i).Name()
+							ft := stt.Field(i).Type()
+							arr := e.heapArr(st, key, ft)
+							fv := e.fresh(st, "filled_"+stt.Field(i).Name(), sortOf(ft))
+							if inv := typeInv(fv, ft); inv != "" {
+								st.assume(inv)
+							}
+							st.heap[key] = "(store " + arr + " " + ptr + " " + fv + ")"
+						}
+						e.note("a struct handed to library code by pointer (command-line options) has unknown field values afterwards")
+					}
+				}
+			}
+		}
 		u, ok := a.(*ast.UnaryExpr)
 		if !ok || u.Op.String() != "&" {
 			continue
@@ -116,6 +139,13 @@ func (e *Exec) havocAddressed(call *ast.CallExpr, st *State, ctx *Ctx) {
 			st.env[v] = t
 		}
 	}
+}
+
+func firstFieldName(n *types.Named) string {
+	if st, ok := n.Underlying().(*types.Struct); ok && st.NumFields() > 0 {
+		return st.Field(0).Name()
+	}
+	return ""
 }
 
 func (e *Exec) evalArgs(call *ast.CallExpr, st *State, ctx *Ctx) []string {
